@@ -13,7 +13,8 @@ pub fn find_roots_reim(poly: Polynomial<f64>) -> (Vec<f64>, Vec<Complex<f64>>) {
     let mut rng = rand::thread_rng();
     #[cfg(feature = "verif-hooks")]
     let mut rng = crate::verif_hooks::rng();
-    let mut trial = 3;
+    // Failed Newton starts allowed per root (a random start fails with noticeable probability).
+    let mut trial = 20;
     while poly.deg() > 0 && trial > 0 {
         let der = poly.differential_complex();
         let r = rng.gen_range(0.0..2.0);
@@ -29,6 +30,7 @@ pub fn find_roots_reim(poly: Polynomial<f64>) -> (Vec<f64>, Vec<Complex<f64>>) {
                 poly = divide_by_x_a(&poly, x.conj());
             }
             poly = divide_by_x_a(&poly, x);
+            trial = 20;
         } else {
             trial -= 1;
         }
@@ -43,7 +45,8 @@ pub fn find_roots(mut poly: Polynomial<Complex<f64>>) -> Vec<Complex<f64>> {
     let mut rng = rand::thread_rng();
     #[cfg(feature = "verif-hooks")]
     let mut rng = crate::verif_hooks::rng();
-    let mut trial = 3;
+    // Failed Newton starts allowed per root (a random start fails with noticeable probability).
+    let mut trial = 20;
     while poly.deg() > 0 && trial > 0 {
         let der = poly.differential_complex();
         let r = rng.gen_range(0.0..2.0);
@@ -52,6 +55,7 @@ pub fn find_roots(mut poly: Polynomial<Complex<f64>>) -> Vec<Complex<f64>> {
         if let Some(x) = find_once(&poly, &der, x) {
             roots.push(x);
             poly = divide_by_x_a(&poly, x);
+            trial = 20;
         } else {
             trial -= 1;
         }
